@@ -287,6 +287,22 @@ class StmtMixin:
         top = getattr(self, "top_contract", None)
         if top is not None and c is not top and key in top.loops:
             return top.loops[key]          # loops of inlined callees may be specified by the function under verification
+        # a `for` loop whose target variables were renamed: the spec written for `for <old targets> in <same iterable>` still applies;
+        # the old target names become aliases of the new ones inside the spec texts
+        if not isinstance(node, ast.While):
+            tail = " in " + ast.unparse(node.iter)
+            for loops in ([c.loops] if c is not None else []) + ([top.loops] if top is not None and c is not top else []):
+                cands = [k for k in loops if k.startswith("for ") and k.split("#")[0].endswith(tail)]
+                if len(cands) == 1:
+                    old_t = [t.strip() for t in cands[0][4:cands[0].index(tail)].split(",")]
+                    new_t = [ast.unparse(e) for e in node.target.elts] if isinstance(node.target, ast.Tuple) else [ast.unparse(node.target)]
+                    if len(old_t) == len(new_t):
+                        if not hasattr(self, "name_alias"):
+                            self.name_alias = {}
+                        for o, n_ in zip(old_t, new_t):
+                            if o != n_:
+                                self.name_alias[o] = n_
+                        return loops[cands[0]]
         du = top.options.get("default_unroll") if top is not None else None
         if du is not None:
             return LoopSpec(unroll=du)     # bounded stand-ins: any loop without its own spec is unrolled to the stated bound
